@@ -4,7 +4,7 @@ interpreter walks.  Nothing is re-typed: every run parses the files that are on 
 What extraction drops (reported in every evidence file, see DROPPED):
   * type annotations, docstrings, `if typing.TYPE_CHECKING:` blocks, `typing.cast(T, x)` -> x
   * calls on loggers / print / warnings.warn: arguments still evaluated, the call is a no-op event
-  * decorators other than @property, @staticmethod, @dataclass, @abstractmethod
+Functions with other decorators than @property, @staticmethod, @dataclass, @abstractmethod are reported unsupported.
 """
 from __future__ import annotations
 
@@ -18,8 +18,8 @@ DROPPED = [
     "if typing.TYPE_CHECKING blocks",
     "typing.cast(T, x) -> x",
     "logger.* / print / warnings.warn calls (arguments still evaluated; recorded as events)",
-    "decorators other than @property/@staticmethod/@dataclass/@abstractmethod",
 ]
+NOT_DROPPED_NOTE = "a function carrying any decorator other than @property/@staticmethod/@dataclass/@abstractmethod is 'unsupported', not silently undecorated"
 
 
 class ClassInfo:
